@@ -301,6 +301,12 @@ def same_dataset(got, exp, what, sig, order=True):
     core.check_shared_axes(got, what, sig)
 
 
+def same_dataset_ordered(got, exp, what, sig):
+    """single-file reads: the dataset's dimensions also come in the same order as after the same selection in memory"""
+    same_dataset(got, exp, what, sig)
+    check(list(got.dims) == list(exp.dims), "dataset-dims-order", {"what": what, "on_disk": list(got.dims), "in_memory": list(exp.dims)}, sig)
+
+
 def outcome(f):
     import contextlib
     try:
@@ -394,15 +400,15 @@ def run_read(case, tmp):
             k0 = list(ldict)[0]
             one = {k0: ldict[k0]}
             if lidx[dims.index(k0)]["k"] != "mask":
-                differential(lambda: h.read(indices=dict(one)), lambda: loaded.take(indices=dict(one)), base + "h.read(indices=%s)" % core.jsonable(one), sig, compare=same_dataset)
-                differential(lambda: da.read_nc(path, indices=dict(one)), lambda: loaded.take(indices=dict(one)), base + "read_nc(f, indices=%s)" % core.jsonable(one), sig, compare=same_dataset)
-                differential(lambda: h.sel(**one), lambda: loaded.sel(**one), base + "h.sel(%s)" % core.jsonable(one), sig, compare=same_dataset)
+                differential(lambda: h.read(indices=dict(one)), lambda: loaded.take(indices=dict(one)), base + "h.read(indices=%s)" % core.jsonable(one), sig, compare=same_dataset_ordered)
+                differential(lambda: da.read_nc(path, indices=dict(one)), lambda: loaded.take(indices=dict(one)), base + "read_nc(f, indices=%s)" % core.jsonable(one), sig, compare=same_dataset_ordered)
+                differential(lambda: h.sel(**one), lambda: loaded.sel(**one), base + "h.sel(%s)" % core.jsonable(one), sig, compare=same_dataset_ordered)
                 cl.add("read:dataset")
         if dsdims and pdict:
             k0 = list(pdict)[0]
             one = {k0: pdict[k0]}
             if pidx[dims.index(k0)]["k"] != "pmask":
-                differential(lambda: h.isel(**one), lambda: loaded.isel(**one), base + "h.isel(%s)" % core.jsonable(one), sig, compare=same_dataset)
+                differential(lambda: h.isel(**one), lambda: loaded.isel(**one), base + "h.isel(%s)" % core.jsonable(one), sig, compare=same_dataset_ordered)
         # classes
         if any(l and core.label_kind(l) == "s" for l in labels):
             cl.add("read:str-axis")
